@@ -630,7 +630,9 @@ def evidence_info(prop):
                 'the write/pwrite/fsync/fdatasync/ftruncate/unlink system calls sqlite issues on files of the sandbox '
                 '(journal creation, journal and page writes, syncs, journal delete) and the operation is re-run once per '
                 'call, killed right before it, and once more per write with half of the buffer written (at most 160 '
-                'such points per scenario, evenly spaced when there are more). A '
+                'such points per scenario, evenly spaced when there are more). A tenth of the single-file scenarios run under '
+                'an environment fault: the archive file is writable (0666) but its directory is not (0555) and the traced '
+                'and crashing writer is demoted to uid 65534 (the survivor is still read by a fresh privileged process). A '
                 'fresh process then opens the archive: open/len/keys/items/__asdict__/cache.load() must not raise, '
                 'touched keys hold the previous or the new value (or absence), untouched keys are unchanged, no other key '
                 'exists. total_steps = crash points executed. distinct = distinct (backend, operation, prior size and '
@@ -649,6 +651,8 @@ def evidence_info(prop):
             'crash points inside the sqlite library need a C compiler at check time (sim/native/crashshim.c is built '
             'into a scratch directory and preloaded into the workers); without one only the Python-level points run and '
             'the probe native-shim-absent counts the scenarios affected',
+            'the unwritable-directory fault needs the check to run as root (setuid to an unprivileged uid); otherwise the '
+            'probe readonly-directory-fault-needs-root counts the scenarios that ran without it',
             'the shim sees write, pwrite, pwrite64, fsync, fdatasync, ftruncate and unlink; memory-mapped I/O and '
             'other calls are not crash points (sqlite uses none of them in its default configuration)',
             'bytecode (.pyc) writes by the import system are not intercepted (they use write-to-temp + replace)',
